@@ -74,6 +74,7 @@ func TestCheck(t *testing.T) {
 	r.Require("cells_covered", int64(len(specs)))
 	r.Require("blocked_reader_probes_confirmed_k>=2", 300)
 	r.Require("failed_handover_probes", 400)
+	r.Require("vapi_duties_nonempty_answers", 6)
 	r.Require("failed_handover_confirmed_returned_while_store_held", 30)
 	r.Set("cells", len(specs))
 
@@ -715,6 +716,7 @@ func allSpecs() []spec {
 	out = append(out, fetcherSpecs()...)
 	out = append(out, schedulerSpecs()...)
 	out = append(out, vapiSpecs()...)
+	out = append(out, vapiDutySpecs()...)
 
 	return out
 }
